@@ -16,3 +16,9 @@ Proof. intros H1 H2 H3. unfold seen_context. destruct b; rewrite ?H1, ?H2, ?H3; 
 Theorem stored_independent_of_context ctx task (key_of : task -> nat) (entry_of : task -> nat -> nat) b t c c' r :
   stored ctx task key_of entry_of b t c r = stored ctx task key_of entry_of b t c' r.
 Proof. reflexivity. Qed.
+
+Theorem handed_is_current ctx (c0 : ctx) ops : forall cur, handed ctx CtxAtRun c0 cur ops = current_at_runs ctx cur ops.
+Proof. induction ops as [|[c|] ops IH]; intros cur; cbn [handed current_at_runs]; [reflexivity|apply IH|now rewrite IH]. Qed.
+
+Theorem bound_at_init_refuted : exists (c0 c1 : nat) ops, handed nat CtxAtInit c0 c0 ops <> current_at_runs nat c0 ops.
+Proof. exists 1, 2, [LSetContext nat 2; LRun nat]. cbn. discriminate. Qed.
